@@ -20,6 +20,7 @@ import (
 
 	"github.com/google/pprof/internal/driver"
 	"github.com/google/pprof/internal/plugin"
+	"github.com/google/pprof/internal/verifrt"
 	"github.com/google/pprof/profile"
 )
 
@@ -415,6 +416,52 @@ func Get(h map[string]http.Handler, method, target string) (code int, body []byt
 		hd.ServeHTTP(rec, req)
 	}()
 	return rec.Code, rec.Body.Bytes(), pan
+}
+
+// GetFull is Get over a response writer whose every method is a scheduling point
+// under an exploration (the network side of a handler is an environment seam), and
+// it also returns the headers a client acts on (Location, Content-Type,
+// Content-Disposition).
+func GetFull(h map[string]http.Handler, method, target string) (code int, header string, body []byte, pan any) {
+	path := target
+	if i := strings.IndexByte(path, '?'); i >= 0 {
+		path = path[:i]
+	}
+	hd := h[path]
+	if hd == nil {
+		return 404, "", nil, nil
+	}
+	rec := httptest.NewRecorder()
+	req := httptest.NewRequest(method, "http://localhost:8080"+target, nil)
+	func() {
+		defer func() {
+			if r := recover(); r != nil {
+				pan = r
+			}
+		}()
+		hd.ServeHTTP(yieldingWriter{rec}, req)
+	}()
+	for _, k := range []string{"Location", "Content-Type", "Content-Disposition"} {
+		if v := rec.Header().Values(k); len(v) > 0 {
+			header += fmt.Sprintf("%s: %q\n", k, v)
+		}
+	}
+	return rec.Code, header, rec.Body.Bytes(), pan
+}
+
+type yieldingWriter struct{ w http.ResponseWriter }
+
+func (y yieldingWriter) Header() http.Header {
+	verifrt.Yield("ResponseWriter.Header")
+	return y.w.Header()
+}
+func (y yieldingWriter) Write(b []byte) (int, error) {
+	verifrt.Yield("ResponseWriter.Write")
+	return y.w.Write(b)
+}
+func (y yieldingWriter) WriteHeader(code int) {
+	verifrt.Yield("ResponseWriter.WriteHeader")
+	y.w.WriteHeader(code)
 }
 
 // Paths lists the handler paths.
